@@ -49,11 +49,11 @@ def laws():
             return f
         return deco
 
-    def field3(g, comp, e, C, trig=False):
+    def field3(g, comp, e, C, trig=False, ncomp=3):
         c = g.sym("c")
 
         def fn(p):
-            v = [sp.S.Zero] * 3
+            v = [sp.S.Zero] * ncomp
             if trig:
                 v[comp] = c * sin(e[0] * p.x + e[1] * p.y) * cos(e[2] * p.z) + p.x * p.y
             else:
@@ -82,10 +82,10 @@ def laws():
 
     # ------------------------------------------------------------------ Stokes
     @law("circulation_along_curve==circulation_along_surface_boundary/stokes-on-ellipse-capped-by-paraboloid",
-         [(m, e) for m, e in M3])
+         [(m, e, 3) for m, e in M3] + [(m, e, 2) for m, e in M3 if m < 2 and e[2] > 0])
     def _(s, g):
         C = CS(CS.System.CARTESIAN)
-        fld = field3(g, s[0], s[1], C)
+        fld = field3(g, s[0], s[1], C, ncomp=s[2])
         a, b = g.sym("a", positive=True), g.sym("b", positive=True)
         cx, cy, h = g.sym("cx"), g.sym("cy"), g.sym("h")
         t, rho, phi = g.var("t"), g.var("rho"), g.var("phi")
@@ -117,7 +117,7 @@ def laws():
         return Case([lhs - rhs] + free_of(lhs, [u] + xyz) + free_of(rhs, [u, v] + xyz))
 
     # ------------------------------------------------------------------ Green (divergence form)
-    @law("flux_across_curve==flux_across_surface_boundary/green-on-ellipse", [(m, e) for m, e in M2])
+    @law("flux_across_curve==flux_across_surface_boundary/green-on-ellipse", [(m, e, o) for m, e in M2 for o in ("rho-phi", "phi-rho")])
     def _(s, g):
         C = CS(CS.System.CARTESIAN)
         fld = field2(g, s[0], s[1], C)
@@ -127,12 +127,16 @@ def laws():
         curve = [cx + a * cos(t), cy + b * sin(t)]
         surface = [cx + a * rho * cos(phi), cy + b * rho * sin(phi)]
         lhs = AN.flux_across_curve(fld, curve, (t, 0, 2 * pi))
-        rhs = AN.flux_across_surface_boundary(fld, surface, (rho, 0, 1), (phi, 0, 2 * pi))
+        # the region integral does not depend on the order in which the two parameters of the region are listed
+        if s[2] == "rho-phi":
+            rhs = AN.flux_across_surface_boundary(fld, surface, (rho, 0, 1), (phi, 0, 2 * pi))
+        else:
+            rhs = AN.flux_across_surface_boundary(fld, surface, (phi, 0, 2 * pi), (rho, 0, 1))
         xyz = list(C.coord_system.base_scalars())
         return Case([lhs - rhs] + free_of(lhs, [t] + xyz) + free_of(rhs, [rho, phi] + xyz))
 
     @law("flux_across_curve==flux_across_surface_boundary/green-on-rectangle",
-         [(m, e, False) for m, e in M2] + [(m, (2, 1), True) for m in range(2)])
+         [(m, e, False, o) for m, e in M2 for o in ("u-v", "v-u")] + [(m, (2, 1), True, "u-v") for m in range(2)])
     def _(s, g):
         C = CS(CS.System.CARTESIAN)
         fld = field2(g, s[0], s[1], C, s[2])
@@ -141,7 +145,10 @@ def laws():
         x1, y1 = x0 + w, y0 + hh
         u, v = g.var("u"), g.var("v")
         lhs = sum(AN.flux_across_curve(fld, seg, (u, 0, 1)) for seg, _ in rect_boundary(x0, x1, y0, y1, u))
-        rhs = AN.flux_across_surface_boundary(fld, [x0 + w * u, y0 + hh * v], (u, 0, 1), (v, 0, 1))
+        if s[3] == "u-v":
+            rhs = AN.flux_across_surface_boundary(fld, [x0 + w * u, y0 + hh * v], (u, 0, 1), (v, 0, 1))
+        else:
+            rhs = AN.flux_across_surface_boundary(fld, [x0 + w * u, y0 + hh * v], (v, 0, 1), (u, 0, 1))
         xyz = list(C.coord_system.base_scalars())
         return Case([lhs - rhs] + free_of(lhs, [u] + xyz) + free_of(rhs, [u, v] + xyz))
 
